@@ -19,6 +19,7 @@ Monitors (per solve and per batch element)
                      (x, u) satisfies x_{t+1} = f(x_t, u_t, t) re-simulated with a separate copy of f, and
                      the returned cost is the cost of the returned trajectory
 """
+import copy
 import traceback
 
 import numpy as np
@@ -88,23 +89,23 @@ class IdxLTV(pp.module.LTV):
     """A, B (and optionally c1) stacked over time and indexed by the system time, as in
     tests/module/test_lqr.py::test_lqr_ltv (periodic, so every system time is a valid index)."""
 
-    def __init__(self, A, B, C, D, c1, P, tv_c1):
+    def __init__(self, A, B, C, D, c1, P, tv_c1, phase=0):
         super().__init__(A, B, C, D, c1, None)
-        self.P, self.tv_c1 = P, tv_c1
+        self.P, self.tv_c1, self.phase = P, tv_c1, phase      # phase: the schedule starts `phase` steps into its period
 
     @property
     def A(self):
-        return self._A[..., self._t % self.P, :, :]
+        return self._A[..., (self._t + self.phase) % self.P, :, :]
 
     @property
     def B(self):
-        return self._B[..., self._t % self.P, :, :]
+        return self._B[..., (self._t + self.phase) % self.P, :, :]
 
     @property
     def c1(self):
         if self._c1 is None or not self.tv_c1:
             return self._c1
-        return self._c1[..., self._t % self.P, :]
+        return self._c1[..., (self._t + self.phase) % self.P, :]
 
 
 class FuncLTV(pp.module.LTV):
@@ -224,8 +225,9 @@ class Problem:
             tv = self.c1_kind == "tv"
             if self.c1_kind != "none":
                 c1v = tt(rng.standard_normal((B, P, ns) if tv else (B, ns)) * un, d)
-            self.make = lambda: IdxLTV(self.tA, self.tB, eye, zer, c1v, P, tv)
-            idx = np.arange(T) % P
+            self.phase = int(rng.choice([0, 0, 1, int(rng.integers(0, P))]))
+            self.make = lambda: IdxLTV(self.tA, self.tB, eye, zer, c1v, P, tv, self.phase)
+            idx = (np.arange(T) + self.phase) % P
             self.Aref, self.Bref = f64(self.tA)[:, idx], f64(self.tB)[:, idx]
             self.c1ref = np.zeros((B, T, ns)) if c1v is None else (f64(c1v)[:, idx] if tv else np.repeat(f64(c1v)[:, None], T, axis=1))
         else:  # LTV-func
@@ -393,12 +395,20 @@ def marks_for(ck, prob):
     ck.mark("Q/per-step" if prob.q_tv else "Q/time-invariant")
     if prob.family == "LTV-idx":
         ck.mark("LTV-idx/period<T" if prob.P < prob.T else "LTV-idx/period>=T")
+        if prob.phase and prob.P >= prob.T:
+            ck.mark("LTV-idx/period>=T/phase-offset")
 
 
 def run_lqr_problem(ck, rng, prob, pid):
     marks_for(ck, prob)
     sysobj = prob.make()
+    if rng.random() < 0.3:
+        # object lifecycle: the system was used (its clock moved) and then deep-copied; the controller is built on the copy
+        disturb_time(rng, sysobj, prob)
+        sysobj = copy.deepcopy(sysobj)
+        ck.mark("solve/on-a-deep-copied-system")
     lqr = pp.module.LQR(sysobj, prob.tQ, prob.tp, prob.T)
+    handed_out = []          # (solve, output tuple, clones): results of earlier solves are the caller's
     n_solves = int(rng.integers(1, 6))
     x_init = prob.new_x_init(rng)
     seen = {}
@@ -451,6 +461,11 @@ def run_lqr_problem(ck, rng, prob, pid):
             ck.check(torch.equal(ut, ut_before), "lqr_nominal_untouched", regime, "LQR", "nominal_u_traj_modified_by_solve", wit)
         if not okc or not shapes_ok(ck, "lqr_start", regime, "LQR", prob, out):
             continue
+        for (j0, o0, c0) in handed_out:
+            ck.count("lqr_independence", regime + "/kept", key=(pid, j, j0))
+            ck.check(all(torch.equal(a_, b_) for a_, b_ in zip(o0, c0)), "lqr_independence", regime, "LQR", "result_of_an_earlier_solve_changed_by_a_later_solve",
+                     dict(wit, earlier_solve=j0, changed=[n_ for n_, a_, b_ in zip(("x", "u", "cost"), o0, c0) if not torch.equal(a_, b_)]))
+        handed_out = (handed_out + [(j, tuple(out[:3]), tuple(t_.detach().clone() for t_ in out[:3]))])[-3:]
         X, Uo, Co = f64(out[0]), f64(out[1]), f64(out[2]).reshape(-1)
         last_U = out[1].detach().clone()
         x0 = f64(x_init)
@@ -694,7 +709,7 @@ def run(ck):
         run_mpc_nls(ck, rng, "f64" if i % 2 == 0 else "f32", (ck.shard, pid))
 
     ck.require("solve/second-on-same-object", "solve/second-on-same-object/LTV", "solve/systime!=0-before-first",
-               "solve/nonzero-u_traj", "solve/warm-start", "units/1", "units/1e-06", "units/100000", "solve/expanded-u_traj", "solve/same-u_traj-object-updated-in-place", "family/LTI", "family/LTI-shared", "family/LTV-idx", "family/LTV-func",
+               "solve/nonzero-u_traj", "solve/on-a-deep-copied-system", "LTV-idx/period>=T/phase-offset", "solve/warm-start", "units/1", "units/1e-06", "units/100000", "solve/expanded-u_traj", "solve/same-u_traj-object-updated-in-place", "family/LTI", "family/LTI-shared", "family/LTV-idx", "family/LTV-func",
                "dtype/f64", "dtype/f32", "B=1", "B=2", "B=3", "T=1", "T=2", "T=20",
                "n_state=1/T>=2/B>=2", "n_state=1/T>=2/unbatched-A", "n_state==n_ctrl", "kappa>=1e5", "rho>1",
                "c1/none", "c1/const", "c1/tv", "Q/per-step", "Q/time-invariant", "LTV-idx/period<T", "LTV-idx/period>=T",
